@@ -29,6 +29,18 @@ func buildTree(s gen.TreeSpec) (*newick.Node, []*newick.Node) {
 		p := nodes[pa[i]]
 		p.Children = append(p.Children, nodes[i])
 	}
+	if s.EmptyLeaves != 0 {
+		for i, n := range nodes {
+			if len(n.Children) == 0 {
+				switch {
+				case s.EmptyLeaves == 1 || (s.EmptyLeaves == 2 && i%2 == 0):
+					n.Children = []*newick.Node{}
+				case s.EmptyLeaves == 3:
+					n.Children = make([]*newick.Node, 0, 4)
+				}
+			}
+		}
+	}
 	return nodes[0], nodes
 }
 
@@ -97,7 +109,7 @@ func treeDepthAndFan(pa []int) (depth, fan int) {
 
 func genTreeShape(t *rapid.T, maxNodes int) gen.TreeSpec {
 	n := rapid.OneOf(rapid.IntRange(1, 8), rapid.IntRange(1, 40), rapid.IntRange(1, maxNodes)).Draw(t, "nodes")
-	return gen.TreeSpec{Parents: gen.DrawShape(t, n)}
+	return gen.TreeSpec{Parents: gen.DrawShape(t, n), EmptyLeaves: rapid.SampledFrom([]int{0, 0, 0, 1, 2, 3}).Draw(t, "emptyLeaves")}
 }
 
 func genC19(t *rapid.T, thorough bool) C19Case {
@@ -132,6 +144,7 @@ func checkC19(c C19Case, o *Obs) error {
 	o.ClassIf(depth == len(nodes)-1 && len(nodes) > 1, "chain")
 	o.ClassIf(len(nodes) >= 3 && depth > 3*fan && depth < len(nodes)-1, "unbalanced")
 	o.Class("shape:" + c.Tree.Shape)
+	o.ClassIf(c.Tree.EmptyLeaves != 0, "leaves with empty non-nil Children")
 	snap := snapshot(nodes)
 
 	index := make(map[*newick.Node]int, len(nodes))
@@ -206,7 +219,16 @@ func exhaustiveC19(thorough bool, emit func(C19Case) bool) {
 		maxN = 11
 	}
 	for n := 1; n <= maxN; n++ {
-		if !gen.AllShapes(n, func(p []int) bool { return emit(C19Case{Tree: gen.TreeSpec{Parents: p}}) }) {
+		if !gen.AllShapes(n, func(p []int) bool {
+			if n <= 6 {
+				for el := 1; el <= 3; el++ {
+					if !emit(C19Case{Tree: gen.TreeSpec{Parents: p, EmptyLeaves: el}}) {
+						return false
+					}
+				}
+			}
+			return emit(C19Case{Tree: gen.TreeSpec{Parents: p}})
+		}) {
 			return
 		}
 	}
